@@ -86,7 +86,8 @@ impl ShapeIndex {
 fn read_index_file<T: Read>(mut source: T) -> Result<Vec<ShapeIndex>, Error> {
     let header = header::Header::read_from(&mut source)?;
 
-    let num_shapes = ((header.file_length * 2) - header::HEADER_SIZE) / INDEX_RECORD_SIZE as i32;
+    let num_shapes =
+        ((header.file_length as i64 * 2) - header::HEADER_SIZE as i64) / INDEX_RECORD_SIZE as i64;
     let mut shapes_index = Vec::<ShapeIndex>::new();
     for _ in 0..num_shapes {
         let offset = source.read_i32::<BigEndian>()?;
@@ -104,6 +105,9 @@ fn read_one_shape_as<T: Read, S: ReadableShape>(
     mut source: &mut T,
 ) -> Result<(record::RecordHeader, S), Error> {
     let hdr = record::RecordHeader::read_from(&mut source)?;
+    if hdr.record_size < 0 || hdr.record_size > i32::MAX / 2 {
+        return Err(Error::InvalidShapeRecordSize);
+    }
     let record_size = hdr.record_size * 2;
     let shape = S::read_from(&mut source, record_size)?;
     Ok((hdr, shape))
@@ -135,12 +139,16 @@ impl<T: Read + Seek, S: ReadableShape> Iterator for ShapeIterator<'_, T, S> {
                 // Its 'safer' to seek to the shape offset when we have the `shx` file
                 // as some shapes may not be stored sequentially and may contain 'garbage'
                 // bytes between them
-                let start_pos = shapes_indices.next()?.offset * 2;
-                if start_pos != self.current_pos as i32 {
+                let offset = shapes_indices.next()?.offset;
+                if offset < 0 {
+                    return Some(Err(Error::InvalidShapeRecordSize));
+                }
+                let start_pos = offset as usize * 2;
+                if start_pos != self.current_pos {
                     if let Err(err) = self.source.seek(SeekFrom::Start(start_pos as u64)) {
                         return Some(Err(err.into()));
                     }
-                    self.current_pos = start_pos as usize;
+                    self.current_pos = start_pos;
                 }
             }
             let (hdr, shape) = match read_one_shape_as::<T, S>(self.source) {
@@ -355,7 +363,7 @@ impl<T: Read + Seek> ShapeReader<T> {
             _shape: std::marker::PhantomData,
             source: &mut self.source,
             current_pos: header::HEADER_SIZE as usize,
-            file_length: (self.header.file_length as usize) * 2,
+            file_length: (self.header.file_length.max(0) as usize) * 2,
             shapes_indices: self.shapes_index.as_ref().map(|s| s.iter()),
         }
     }
@@ -455,7 +463,7 @@ impl<T: Read + Seek> ShapeReader<T> {
         if let Some(ref shapes_index) = self.shapes_index {
             let offset = shapes_index
                 .get(index)
-                .map(|shape_idx| (shape_idx.offset * 2) as u64);
+                .map(|shape_idx| (shape_idx.offset as i64 * 2) as u64);
 
             match offset {
                 Some(n) => self.source.seek(SeekFrom::Start(n)),
